@@ -20,7 +20,8 @@ P_DO = "def patch(self, *, skip=None):\n    self.%s += 1\n    return self.g_bran
 NATIVE = {"patches": {**shared.NATIVE_PATCHES, "csvpath.matching.matcher.Matcher._what": shared.P_WHAT,
                       "csvpath.matching.productions.equality.Equality._left_nocontrib": "def patch(self, m):\n    return m.g_nocontrib\n",
                       "csvpath.matching.productions.qualified.Qualified.first_non_term_qualifier": "def patch(self, default=None):\n    return self.g_name_qualifier if self.g_name_qualifier is not None else default\n"},
-          "spec_funs": shared.SPEC_FUNS,
+          "spec_funs": {**shared.SPEC_FUNS,
+                        "is_empty": "def fun(v):\n    m = importlib.import_module('csvpath.matching.util.expression_utility')\n    return m.ExpressionUtility.is_empty(v)\n"},
           "defaults": {"Matchable": {"children": [], "qualified_name": "stub", "_qualifiers": [], "name": "stub", "value": None, "match": None}, "CsvPath": {"metadata": {}}}}
 NATIVE_DISPATCH = {**NATIVE, "patches": {**NATIVE["patches"],
                                          "csvpath.matching.productions.equality.Equality._do_assignment": P_DO % "g_assign_calls",
@@ -31,6 +32,10 @@ INL = control.INL + ["Equality.left", "Equality.right", "Qualified.asbool", "Qua
 
 def interfaces():
     cs = []
+    cs.append(Contract(
+        target=f"{EU}::ExpressionUtility.is_none", interface=True, variant="of_a_number", types={"v": "optnum"},
+        ensures={"only_none": "result == (v is None)"}, returns="bool", class_fields=CF,
+        assumptions=["ExpressionUtility.is_none(v) for v None or a (non-NaN) number is (v is None); its string cases are bounded in C01.bounded"]))
     cs.append(Contract(
         target="csvpath/matching/productions/qualified.py::Qualified.first_non_term_qualifier", interface=True, types={"default": "val"},
         ensures={"name_qualifier_or_default": "same(result, self.g_name_qualifier if self.g_name_qualifier is not None else default)"},
@@ -221,6 +226,60 @@ def leaf_contracts():
         modifies=["self.value", "self.children.0.g_to_value_calls"],
         ensures={"number_of_characters": "self.value == (0 if self.children[0].g_value is None else len(self.children[0].g_value))"},
         returns="none", property_clauses={"number_of_characters": "C01"}, **base))
+    # ---- arithmetic and strings (two-argument forms; the argument list is the fixed pair the parser builds)
+    pair = {"skip": "none", "self.children": "fixed[obj:Equality]", "self.children.0.children": "fixed[obj:Matchable,obj:Matchable]", "self.children.0.op": "str", "self.value": "val"}
+    a_, b_ = "self.children[0].children[0].g_value", "self.children[0].children[1].g_value"
+    pmods = ["self.value", "self.children.0.children.0.g_to_value_calls", "self.children.0.children.1.g_to_value_calls"]
+    num0 = lambda x: "(0 if %s is None else %s)" % (x, x)
+    cs.append(Contract(
+        target=f"{FN}/math/add.py::Add._produce_value", variant="two_numbers",
+        types={**pair, "self.children.0.children.0.g_value": "optnum", "self.children.0.children.1.g_value": "optnum"}, requires=["self.children[0].op == ','"], modifies=pmods,
+        ensures={"sum_of_the_arguments_none_counting_as_zero": "self.value == %s + %s" % (num0(a_), num0(b_))},
+        returns="none", inline=INL + ["Equality.commas_to_list"], callee_variants={"ExpressionUtility.is_none": "of_a_number"},
+        property_clauses={"sum_of_the_arguments_none_counting_as_zero": "C01"}, **{k: v for k, v in base.items() if k != "inline"}))
+    cs.append(Contract(
+        target=f"{FN}/math/multiply.py::Multiply._produce_value", variant="two_numbers",
+        types={**pair, "self.children.0.children.0.g_value": "optnum", "self.children.0.children.1.g_value": "optnum"}, requires=["self.children[0].op == ','"], modifies=pmods,
+        ensures={"product_of_the_arguments": "implies(%s is not None and %s is not None, self.value == %s * %s)" % (a_, b_, a_, b_),
+                 "none_makes_zero": "implies(%s is None or %s is None, self.value == 0)" % (a_, b_)},
+        returns="none", inline=INL + ["Equality.commas_to_list"],
+        property_clauses={"product_of_the_arguments": "C01"}, **{k: v for k, v in base.items() if k != "inline"}))
+    cs.append(Contract(
+        target=f"{FN}/strings/concat.py::Concat._produce_value", variant="two_values",
+        types={**pair, "self.children.0.children.0.g_value": "scalar", "self.children.0.children.1.g_value": "scalar"}, requires=["self.children[0].op == ','"], modifies=pmods,
+        ensures={"the_arguments_as_text_in_order": "self.value == str_of(%s) + str_of(%s)" % (a_, b_)},
+        returns="none", inline=INL + ["Equality.commas_to_list"],
+        property_clauses={"the_arguments_as_text_in_order": "C01"}, **{k: v for k, v in base.items() if k != "inline"}))
+    cs.append(Contract(
+        target=f"{FN}/strings/starts_with.py::StartsWith._produce_value",
+        types={**pair, "self.children.0.children.0.g_value": "scalar", "self.children.0.children.1.g_value": "scalar"}, modifies=pmods,
+        ensures={"prefix_test_on_the_stripped_text": "self.value == strip(str_of(%s)).startswith(strip(str_of(%s)))" % (a_, b_)},
+        returns="none", property_clauses={"prefix_test_on_the_stripped_text": "C01"}, **base))
+    one_v = {"skip": "none", "self.children": "fixed[obj:Matchable]", "self.value": "val", "self.children.0.g_value": "scalar"}
+    omods = ["self.value", "self.children.0.g_to_value_calls"]
+    cs.append(Contract(
+        target=f"{FN}/strings/strip.py::Strip._produce_value", types=one_v, modifies=omods,
+        ensures={"text_without_surrounding_blanks": "self.value == strip(str_of(self.children[0].g_value))"},
+        returns="none", property_clauses={"text_without_surrounding_blanks": "C01"}, **base))
+    for cls, fn, meth in (("Lower", "lower", "lower"), ("Upper", "upper", "upper")):
+        cs.append(Contract(
+            target=f"{FN}/strings/{fn}.py::{cls}._produce_value", types=one_v, modifies=omods,
+            ensures={"case_mapped_text_of_the_argument": "self.value == str_of(self.children[0].g_value).%s()" % meth},
+            returns="none", property_clauses={"case_mapped_text_of_the_argument": "C01"}, **base,
+            assumptions=["str.lower()/upper() are uninterpreted: the clause pins down WHICH text is mapped (the argument's string form), not the mapping"]))
+    # ---- exists(), empty(x)
+    cs.append(Contract(target=f"{EU}::ExpressionUtility.is_empty", interface=True, types={"v": "val"}, ensures={"fn": "result == ufun_bool('is_empty', v)"}, returns="bool", class_fields=CF,
+                       assumptions=["ExpressionUtility.is_empty(v) is a function of v only (None, 'None', 'nan', blank strings, empty containers: bounded in C01.bounded / C03.bounded)"]))
+    cs.append(Contract(
+        target=f"{FN}/boolean/exists.py::Exists._decide_match", types={"skip": "none", "self.children": "fixed[obj:Matchable]", "self.match": "val"},
+        modifies=["self.match", "self.children.0.g_to_value_calls"],
+        ensures={"matches_iff_the_value_is_not_empty": "self.match == (not ufun_bool('is_empty', self.children[0].g_value))"},
+        returns="none", property_clauses={"matches_iff_the_value_is_not_empty": "C01"}, **base))
+    cs.append(Contract(
+        target=f"{FN}/boolean/empty.py::Empty._do_one", types={"skip": "none", "child": "obj:Matchable", "self.match": "val"},
+        modifies=["self.match", "child.g_to_value_calls"],
+        ensures={"matches_iff_the_value_is_empty": "self.match == ufun_bool('is_empty', child.g_value)"},
+        returns="none", property_clauses={"matches_iff_the_value_is_empty": "C01"}, **base))
     # ---- a variable as a match component: existence test, or its truth value under asbool
     CF["Variable"] = {**CF.get("Variable", {}), "value": "val", "match": "optbool", "name": "str", "_qualifiers": "list[str]"}
     vtypes = {"skip": "none", "self.value": "val", "self.match": "optbool", "self.name": "str", "self._qualifiers": "list[str]", "self.g_name_qualifier": "optstr"}
